@@ -116,6 +116,8 @@ DISCHARGES = [
      'envelope addresses are addresses of Handover values, whose alignment leaves the tag bits clear (TAG-TABLE: align >= TAG_MASK+1)'),
     ('helping::Slots::help', 'panic_fmt', 'unreachable', set(), 'TAG-TABLE',
      'the match on control & TAG_MASK lists exactly the three tags ever written'),
+    ('helping::Slots::help', 'panicking::panic', 'debug_assert', {'call:eq'}, 'TXN-CLOSED',
+     'no_std spelling of the same debug_assert!'),
     ('helping::Slots::help', 'begin_panic', 'debug_assert', {'call:eq'}, 'TXN-CLOSED',
      'a writer finds GEN_TAG in its own control only inside its own transaction, and no call happens inside a transaction'),
     ('helping::Slots::help', 'assert_failed', 'debug_assert_eq', {'atomic:control.load'}, 'TXN-CLOSED',
